@@ -16,13 +16,13 @@ META = dict(
 
 def plan(ctx, tier, seed):
     hs = []
-    combos = [(0, 4, 0), (0, 104, 0), (1, 16, 1)] if tier == "quick" else [(w, n, v) for w in (0, 1) for n in (4, 104, 5, 16) for v in (0, 1)]
+    combos = [(0, 4, 0), (0, 104, 0), (0, 204, 0), (1, 16, 1)] if tier == "quick" else [(w, n, v) for w in (0, 1) for n in (4, 104, 204, 5, 16) for v in (0, 1)]
     for wl, ndds, withv in combos:
         rngs = [(0, 3), (4, 7), (8, 11), (12, 40)] if not withv else [(0, 1), (2, 3), (4, 5), (6, 7), (8, 9), (10, 12), (13, 40)]
         for lo, hi in rngs:
             hs.append(H("C17.S1.w%d.n%d.v%d.c%d_%d" % (wl, ndds, withv, lo, hi), "C17", src="harness/C17/s1_crash.c", units=libhdf_units(),
                         models=["memio", "herr", "memloops", "printf"],
-                        defs={"WL": wl, "NDDS": ndds % 100, "FULLBLK": 1 if ndds >= 100 else 0, "WITHV": withv, "CMIN": lo, "CMAX": hi, "MEMIO_DISK_SZ": 2048, "MEMIO_LOGDATA": 2048, "MEMIO_LOGN": 64},
+                        defs={"WL": wl, "NDDS": ndds % 100, "FULLBLK": 1 if ndds >= 100 else 0, "TAILDD": 1 if ndds >= 200 else 0, "WITHV": withv, "CMIN": lo, "CMAX": hi, "MEMIO_DISK_SZ": 2048, "MEMIO_LOGDATA": 2048, "MEMIO_LOGN": 64},
                         unwind=5000, kind="S", timeout=1500, symbolic="40 payload bytes", bound="crash prefixes %d..%d of the session's writes" % (lo, hi),
                         group="C17.S1", hang_is_violation=True))
     return hs
